@@ -36,13 +36,15 @@ func iv(text string, want int) c18val { return c18val{text, want} }
 func c18keys() []c18key {
 	q := func(s string) string { return `"` + s + `"` }
 	ipAlts := func(def string) []c18val {
-		return []c18val{sv(def, def), sv(q(def), def), sv("10.0.0.1", "10.0.0.1"), sv(q(""), ""), sv("'255.255.255.255'", "255.255.255.255"), sv("amf.example.org", "amf.example.org")}
+		return []c18val{sv(def, def), sv(q(def), def), sv("10.0.0.1", "10.0.0.1"), sv(q(""), ""), sv("'255.255.255.255'", "255.255.255.255"), sv("amf.example.org", "amf.example.org"),
+			// address literals that are not in the form a library would print them in: they are text and stay as written
+			sv(q("FD00:61::4"), "FD00:61::4"), sv(q("fd00:61:0:0:0:0:0:4"), "fd00:61:0:0:0:0:0:4"), sv(q("::ffff:192.168.61.3"), "::ffff:192.168.61.3"), sv(q("010.001.000.007"), "010.001.000.007")}
 	}
 	portAlts := func(def int) []c18val {
 		return []c18val{iv(fmt.Sprint(def), def), iv("0", 0), iv("65535", 65535), iv("38412 #48412", 38412), iv("2147483647", 2147483647), iv("-1", -1)}
 	}
 	cnt := func(def int) []c18val {
-		return []c18val{iv(fmt.Sprint(def), def), iv("0", 0), iv("1", 1), iv("2147483647", 2147483647), iv("-5", -5), iv("007", 7)}
+		return []c18val{iv(fmt.Sprint(def), def), iv("0", 0), iv("1", 1), iv("2147483647", 2147483647), iv("-5", -5), iv("007", 7), iv("9007199254740993", 9007199254740993), iv("9223372036854775807", 9223372036854775807)}
 	}
 	hexAlts := func(def string) []c18val {
 		return []c18val{sv(q(def), def), sv(q(strings.ToLower(def)), strings.ToLower(def)), sv(q("00000000000000000000000000000000"), "00000000000000000000000000000000"), sv(q(""), ""), sv("'"+def+"'", def), sv("ABCDEFABCDEFABCDEFABCDEFABCDEFAB", "ABCDEFABCDEFABCDEFABCDEFABCDEFAB")}
@@ -55,7 +57,7 @@ func c18keys() []c18key {
 		{"stg_ngap_port", "StgNgapPort", "int", portAlts(9487)},
 		{"gnb_id", "Gnb_id", "string", []c18val{sv(`"\x00\x01\x02"`, "\x00\x01\x02"), sv(`"\x7f\x00\x7e\x01"`, "\x7f\x00\x7e\x01"), sv(`"abc"`, "abc"), sv(`"é\x01"`, "é\x01"), sv(`"\t\n\\\""`, "\t\n\\\""), sv(`""`, ""), sv(`"\0\x01\x02"`, "\x00\x01\x02"), sv(`"\x20\x01\x20"`, "\x20\x01\x20"), sv(`"\x09\x01\x0d"`, "\x09\x01\x0d")}},
 		{"gnb_bitlength", "Gnb_bitlength", "uint64", []c18val{{"24", uint64(24)}, {"22", uint64(22)}, {"32", uint64(32)}, {"0", uint64(0)}, {"27", uint64(27)}}},
-		{"gnb_name", "Gnb_name", "string", []c18val{sv(`"open5gs"`, "open5gs"), sv("gnb-1", "gnb-1"), sv(`""`, ""), sv(`"name with spaces"`, "name with spaces"), sv(`"`+strings.Repeat("x", 150)+`"`, strings.Repeat("x", 150)), sv(`'single #quoted'`, "single #quoted"), sv(`" gnb 7 "`, " gnb 7 ")}},
+		{"gnb_name", "Gnb_name", "string", []c18val{sv(`"open5gs"`, "open5gs"), sv("gnb-1", "gnb-1"), sv(`""`, ""), sv(`"name with spaces"`, "name with spaces"), sv(`"`+strings.Repeat("x", 150)+`"`, strings.Repeat("x", 150)), sv(`'single #quoted'`, "single #quoted"), sv(`" gnb 7 "`, " gnb 7 "), sv(`"$HOME-gnb"`, "$HOME-gnb"), sv(`"${PATH}x"`, "${PATH}x"), sv(`"a${}b$$c"`, "a${}b$$c"), sv(`"%s %d {{.}}"`, "%s %d {{.}}")}},
 		{"initial_imsi", "Initial_imsi", "string", []c18val{sv(`"001010000000001"`, "001010000000001"), sv(`"999990123456789"`, "999990123456789"), sv(`"00101000000001"`, "00101000000001"), sv(`'000000000000000'`, "000000000000000"), sv(`""`, "")}},
 		{"mcc", "Mcc", "string", []c18val{sv(`"001"`, "001"), sv(`"999"`, "999"), sv(`'000'`, "000"), sv(`"208"`, "208")}},
 		{"mnc", "Mnc", "string", []c18val{sv(`"01"`, "01"), sv(`"001"`, "001"), sv(`"99"`, "99"), sv(`'00'`, "00"), sv(`"410"`, "410")}},
@@ -64,7 +66,7 @@ func c18keys() []c18key {
 		{"op", "OP", "string", hexAlts("E8ED289DEBA952E4283B54E88E6183CA")},
 		{"sst", "SST", "int32", []c18val{{"1", int32(1)}, {"0", int32(0)}, {"255", int32(255)}, {"2147483647", int32(2147483647)}, {"-1", int32(-1)}}},
 		{"sd", "SD", "string", []c18val{sv(`"010203"`, "010203"), sv(`"000001"`, "000001"), sv(`""`, ""), sv(`"ffffff"`, "ffffff"), sv(`'000000'`, "000000")}},
-		{"downlink_iface", "DLIface", "string", []c18val{sv(`"enp0s8"`, "enp0s8"), sv("eth0", "eth0"), sv(`""`, ""), sv(`"lo"`, "lo")}},
+		{"downlink_iface", "DLIface", "string", []c18val{sv(`"enp0s8"`, "enp0s8"), sv("eth0", "eth0"), sv(`""`, ""), sv(`"lo"`, "lo"), sv(`"$USER"`, "$USER"), sv(`"if${HOME}"`, "if${HOME}")}},
 		{"uplink_iface", "ULIface", "string", []c18val{sv(`"enp0s9"`, "enp0s9"), sv("eth1", "eth1"), sv(`""`, ""), sv(`"lo"`, "lo")}},
 		{"ue_number", "UeNumber", "int", cnt(1)},
 		{"ue_registration", "Test_ue_registation", "int", cnt(10)},
